@@ -572,9 +572,9 @@ theorem processPrecommit_chain (env : Env) (m : Machine) (v : Vote) (hA : A (.vo
       split
       · refine ⟨?_, ⟨hi2.vc, hi2.cur⟩⟩
         have h1 : XMicro env A { m with vc := vc2 }
-            [.triggerSync (max (m.lastTriggerSync + 1) m.state.height) (max m.lastQuorum v.height)]
+            [.writeWAL (.precommit v), .triggerSync (max (m.lastTriggerSync + 1) m.state.height) (max m.lastQuorum v.height)]
             { m with vc := vc2, lastQuorum := max m.lastQuorum v.height, lastTriggerSync := max m.lastQuorum v.height } :=
-          XMicro.silent _ _ _ rfl rfl rfl (by intro a ha; simp at ha; subst ha; trivial)
+          XMicro.silent _ _ _ rfl rfl rfl (by intro a ha; simp at ha; rcases ha with ha | ha <;> subst ha <;> trivial)
         exact XChain.cons hrecv (SC.same rfl) (XChain.cons hrecv2 (SC.same rfl) (XChain.one h1 (SC.same rfl)))
       · have := processMessage_chain (A := A) env { m with vc := vc2 } v.height v.round (.precommit v) hst hi2
         exact ⟨XChain.cons hrecv (SC.same rfl) (XChain.cons hrecv2 (SC.same rfl) this.1), this.2⟩
